@@ -347,3 +347,34 @@ def loop_breaks(fn):
             if any(fn.blocks[z]["t"]["k"] == "call" for z in shared):
                 out.append((fn.loc(b), fn.loc(x)))
     return out
+
+
+def walk_decisions(fn, start, stops, render=None, limit=64):
+    """Follows the CFG from block `start`, branching at every switch, until a block of `stops` (block -> label) is
+    reached: [(conds, label)] with conds = {rendered discriminant: value} (`else` arms of 0/1 switches are rendered as
+    the complementary value). Calls, asserts and gotos are followed through their normal successor. Used for small
+    decision regions whose conditions are short-circuit chains (no single dominating test)."""
+    render = render or fn.expr_operand
+    rows = []
+
+    def go(b, conds, seen):
+        if b in stops:
+            rows.append((dict(conds), stops[b]))
+            return
+        if b in seen or len(seen) > limit:
+            rows.append((dict(conds), "?"))
+            return
+        t = fn.blocks[b]["t"]
+        if t["k"] == "switch":
+            d = render(t["discr"])
+            vals = [v for v, _ in t["targets"]]
+            for v, tg in t["targets"]:
+                go(tg, conds + [(d, v)], seen | {b})
+            other = 1 if vals == [0] else (0 if vals == [1] else ("not", tuple(vals)))
+            go(t["otherwise"], conds + [(d, other)], seen | {b})
+        elif t.get("t") is not None and t["k"] in ("goto", "call", "assert", "drop"):
+            go(t["t"], conds, seen | {b})
+        else:
+            rows.append((dict(conds), "end:" + t["k"]))
+    go(start, [], frozenset())
+    return rows
